@@ -5,10 +5,11 @@ from props.api_common import StreamProperty, kv, parse_sources, case_codeword
 class P(StreamProperty):
     pid = 'C01'
     module = 'OpenFecVerif.Props.C01'
-    theorems = ['C01_rs_sound_gf8', 'C01_rs_sound_gf4', 'C01_ml_sound']
+    theorems = ['C01_rs_sound_gf8', 'C01_rs_sound_gf4', 'C01_ml_sound', 'C01_it_sound', 'C01_simplify_sound', 'C01_ldpc_configured',
+                'C01_ldpc_session_sound']
     rule = ('decoder sessions over RS-2^8, RS-2^m (m=4,8), LDPC-Staircase: all 2^n receive sets for every (k,r) with n<=nmax '
             '(orders: increasing / shuffled with duplicates; stream and table API; with and without finish; callbacks none/buf/null/mix; '
-            'identity and random payloads) plus sampled larger blocks with losses near the LDPC threshold; '
+            'identity and random payloads) plus sampled larger blocks with losses near the LDPC threshold, and histories that go on after of_finish_decoding (second finish, late symbols, finish again); '
             'oracle: every non-NULL entry of of_get_source_symbols_tab equals the encoded symbol, completeness => k entries; '
             'non-trivial = distinct (config, order, api, callback, finish) with at least one symbol submitted')
 
@@ -85,6 +86,7 @@ class P(StreamProperty):
         # low-rate small-k sessions (extra entries in the matrix, even N1) and heavy columns
         cases += gens.lowrate_ldpc_cases(rng, 'lr', 300 if tier == 'quick' else 5000)
         cases += gens.dense_column_cases(rng, 'hc', 40 if tier == 'quick' else 500)
+        cases += gens.after_finish_cases(rng, 'af', 150 if tier == 'quick' else 3000)
         return cases
 
     def extra_stats(self, cases, res):
